@@ -332,6 +332,14 @@ theorem package_recorded {bt : List Builtin} (F : Facts) (v2 : Bool) (fuel : Nat
     ∃ r ∈ u'.pkgs, r.path = p.path ∧ r.name = p.name ∧ ∀ i ∈ p.imports, i ∈ r.imports :=
   scanPkg_records F v2 fuel u p u' hf
 
+/-- **package_recorded_v2**: the same for v2's `addPkgToUniverse`, although the visits of all imports run between the scan
+and the recording of the imports -/
+theorem package_recorded_v2 (w : Loader.World) (n : Nat) (st st' : Loader.LState) (path : Str) (p : GPkg)
+    (hfind : w.find path = some p) (hnp : st.processed.contains path = false) (hreq : st.requested.contains path = true)
+    (h : Loader.visitV2 w (n + 1) st path = some st') :
+    ∃ r ∈ st'.u.pkgs, r.path = p.path ∧ r.name = p.name ∧ ∀ i ∈ p.imports, i ∈ r.imports :=
+  visitV2_records w n st st' path p hfind hnp hreq h
+
 /-- `walkType` leaves the indices of functions, variables and constants alone and never changes an existing package record -/
 theorem walk_leaves_declarations_alone (bt : List Builtin) (F : Facts) (v2 : Bool) (fuel : Nat) (u u' : U) (g o : Nat) (un : Option Name)
     (hw : walk bt F v2 fuel u g un = some (u', o)) :
